@@ -118,8 +118,13 @@ pub fn slot_proj(g: &Geo, vals: &Vals, blk: u32, i: usize, s: &[u8]) -> J {
     let mut n11 = [0u8; 11];
     n11.copy_from_slice(&s[0..11]);
     let ck = crate::mkfs::lfn_csum(&n11);
+    // the name the slot stands for: a stored first byte 0x05 means the character 0xE5 (FAT specification, DIR_Name[0])
+    let mut shown = n11;
+    if shown[0] == 0x05 {
+        shown[0] = 0xE5;
+    }
     json!({
-        "k": kind, "n": hex(&s[0..11]), "a": s[11], "c": c, "s": su,
+        "k": kind, "n": hex(&shown), "a": s[11], "c": c, "s": su,
         "zh": size >> 16, "zl": size & 0xFFFF,
         "cd": cd, "ct": ct, "wd": wd, "wt": wt,
         "cc": fat_to_clock(cd, ct), "wc": fat_to_clock(wd, wt),
